@@ -1,8 +1,8 @@
 CONSTANTS
   NK = 3
-  NV = 2
+  NV = 1
   MaxVer = 1
-  MaxLen = 7
+  MaxLen = 6
   NR = 1
   Impl = "bptree"
   SmallTree = TRUE
